@@ -16,6 +16,7 @@ import (
 	"net/http"
 	"runtime/debug"
 	"sort"
+	"strconv"
 	"strings"
 	"sync"
 	"sync/atomic"
@@ -370,10 +371,12 @@ func (r *Recorder) writeHeaderLocked(code int) {
 	}
 	if cl := r.Head.Get("Content-Length"); cl != "" {
 		var n int64
-		if _, err := fmt.Sscanf(cl, "%d", &n); err == nil && fmt.Sprint(n) == cl {
+		if v, err := strconv.ParseInt(cl, 10, 64); err == nil && v >= 0 {
+			n = v
 			r.declaredCL = n
 		} else {
-			r.Anomalies = append(r.Anomalies, fmt.Sprintf("unparseable Content-Length %q", cl))
+			// net/http logs "invalid Content-Length" and drops the header
+			r.Head.Del("Content-Length")
 		}
 	}
 	r.Events = append(r.Events, Event{Kind: "header", N: code})
@@ -535,6 +538,7 @@ type Outcome struct {
 	Body         *scriptBody
 	Snapshot     *reqSnapshot // request as given to ServeHTTP
 	Hang         bool         // ServeHTTP did not return within the watchdog
+	Direct       bool         // the handler was given the client's own ResponseWriter (pass-through / unknown handler)
 }
 
 // watchdog is three orders of magnitude above the normal latency of a case (DESIGN 2.1).
@@ -543,6 +547,7 @@ const watchdog = 30 * time.Second
 const scriptedPanic = "verifbench: scripted backend panic"
 
 type benchRun struct {
+	root     http.ResponseWriter
 	sc       *Scenario
 	mu       sync.Mutex
 	out      *Outcome
@@ -555,6 +560,7 @@ func (br *benchRun) serviceHandler() http.Handler {
 		br.mu.Lock()
 		br.out.Invocations++
 		br.out.HandlerCtx = r.Context()
+		br.out.Direct = br.root != nil && w == br.root
 		br.mu.Unlock()
 		view := observeBackendRequest(br.sc, w, r)
 		br.mu.Lock()
@@ -593,6 +599,7 @@ func (br *benchRun) unknownHandler() http.Handler {
 		br.mu.Lock()
 		br.out.UnknownCalls++
 		br.out.HandlerCtx = r.Context()
+		br.out.Direct = br.root != nil && w == br.root
 		br.mu.Unlock()
 		view := observeBackendRequest(br.sc, w, r)
 		view.IsUnknown = true
@@ -623,6 +630,10 @@ func runScenario(sc *Scenario) *Outcome {
 // sc.Config; otherwise build must have been done with slot-dispatching handlers
 // (see sharedTranscoder).
 func runScenarioOn(sc *Scenario, shared *sharedTranscoder) *Outcome {
+	return runScenarioOpts(sc, shared, false)
+}
+
+func runScenarioOpts(sc *Scenario, shared *sharedTranscoder, noFlusher bool) *Outcome {
 	out := &Outcome{}
 	br := &benchRun{sc: sc, out: out}
 	var done int32
@@ -660,6 +671,10 @@ func runScenarioOn(sc *Scenario, shared *sharedTranscoder) *Outcome {
 	out.Snapshot = snapshotRequest(req)
 	rec := newRecorder(&done)
 	out.Rec = rec
+	br.root = rec
+	if noFlusher {
+		br.root = noFlushRecorder{rec}
+	}
 	finished := make(chan struct{})
 	go func() {
 		defer close(finished)
@@ -674,7 +689,7 @@ func runScenarioOn(sc *Scenario, shared *sharedTranscoder) *Outcome {
 				}
 			}
 		}()
-		handler.ServeHTTP(rec, req)
+		handler.ServeHTTP(br.root, req)
 	}()
 	select {
 	case <-finished:
